@@ -142,7 +142,7 @@ class P(Property):
                 elif r < 0.50:
                     toks.append('G%d' % rng.choice([0, 0, 0, 1, 2]))
                 elif na > 0:
-                    toks.append('x%d:%s' % (4 * rng.randrange(na), rng.choices(acts, wts)[0]))
+                    toks.append('x%d:%s' % (aids[rng.randrange(na)], rng.choices(acts, wts)[0]))
                 else:
                     toks.append('P')
             toks.append('P')
